@@ -20,7 +20,7 @@ import traceback
 
 from . import VERIF, core, findings, minimise, seeds
 
-MACHINES = {"C14": "sim.machines.c14"}
+MACHINES = {"C13": "sim.machines.c13", "C14": "sim.machines.c14"}
 
 TIERS = {
     # wall budget for the search phase (s), per-run cap (s), max runs
